@@ -122,6 +122,28 @@ def evaluate(case):
                 fails.append(_f("solution-count", case, z_to, rho, "%d solutions (a gradient-index tracer reports none or two)" % len(sols), **tags))
             for si, path in enumerate(sols):
                 rays_in.append(({"z_to": z_to, "rho": rho, "si": si, "tags": tags}, path))
+            # the end points are the caller's arrays: what the caller does to them after the tracer has been built (here: after
+            # the solution list was obtained, before anything was read from the paths) does not move the ray
+            if not (is_basic and case["dz"] < 1.0):
+                n += 1
+                a_, b_ = np.array(p0, dtype=float), np.array(p1, dtype=float)
+                try:
+                    tr_a = _tracer(case, ice, a_, b_)
+                    sols_a = list(tr_a.solutions)
+                    a_ += 977.0
+                    b_[:] = (-3.0, 5.0, -7.0)
+                    same = len(sols_a) == len(sols)
+                    for x_, y_ in zip(sols, sols_a):
+                        for name in ("tof", "path_length", "emitted_direction", "received_direction", "from_point", "to_point"):
+                            if not np.array_equal(np.asarray(getattr(x_, name), float), np.asarray(getattr(y_, name), float), equal_nan=True):
+                                same = False
+                    if not same:
+                        fails.append(_f("caller-arrays", case, z_to, rho, "the solutions of a tracer built from numpy arrays changed when "
+                                        "the caller later modified those arrays in place", **tags))
+                except Exception as e:
+                    if src.exception_origin(e) != "library":
+                        raise
+                    fails.append(_f("caller-arrays", case, z_to, rho, "array-typed endpoints: " + src.short_tb(e), exc=type(e).__name__, **tags))
             # the same two points written with integer coordinates (as a user types them) are the same two points
             if all(float(c).is_integer() for c in p0 + p1) and not (is_basic and case["dz"] < 1.0):
                 n += 1
